@@ -19,7 +19,7 @@ SECOND_TIE = {
             "Python AST into Lean (harness/py2lean.py -> Generated/Asn1Gen.lean) and proved equal to the hand-written model of Model/Ber.lean "
             "(Props/TiesAsn1.lean): the C07 theorems then speak about what the source says now",
     "translator": "py2lean.py",
-    "targets": ["Verif.Props.TiesAsn1", "Verif.Props.TiesAsn1More"],
+    "targets": ["Verif.Props.TiesAsn1", "Verif.Props.TiesAsn1More", "Verif.Props.TiesAsn1Api"],
     "validate": "p_asn1gen.py",
 }
 LEVEL = "proof"
